@@ -10,22 +10,24 @@ MODELS = {
 
 CONTRACTS = {
  'LogicalRecordBytes.make_segment': dict(
-    props=['C01', 'C02'],
+    props=['C01', 'C02', 'C15'],
     params={'start_pos': 'int', 'n_bytes': 'int?'},
     requires=['0 <= start_pos', 'start_pos <= self._size', 'n_bytes is None or 0 <= n_bytes'],
     returns='tuple[bytes,int]',
-    raises={'ValueError': f'(n_bytes is not None and start_pos + n_bytes > self._size) or {N} < 12',
-            'struct.error': f'{N} + 4 + {N} % 2 > 65535'},
+    raises={'ValueError': f'(n_bytes is not None and start_pos + n_bytes > self._size) or {N} < 1',
+            'struct.error': f'{N} + 4 + seg_pad({N}) > 65535'},
     ensures=[
       ('size', 'result[1] == len(result[0])'),
       ('even', 'result[1] % 2 == 0'),
       ('min16', 'result[1] >= 16'),
-      ('sizeformula', f'result[1] == {N} + 4 + ({N} % 2)'),
+      ('sizeformula', f'result[1] == {N} + 4 + seg_pad({N})'),
       ('declared-length', 'result[0][0] * 256 + result[0][1] == result[1]'),
-      ('attr-byte', f'result[0][2] == (128 if self._is_eflr else 0) + (0 if start_pos == 0 else 64) + (0 if start_pos + {N} == self._size else 32) + (result[1] - 4 - {N})'),
+      ('attr-byte', f'result[0][2] == lrs_attr_byte(self._is_eflr, start_pos != 0, start_pos + {N} != self._size, result[1] - 4 - {N} > 0)'),
+      ('no-encryption-checksum-trailing-bits', '(result[0][2] // 2) % 16 == 0'),
       ('type-byte', 'result[0][3] == self._lr_type_struct[0]'),
       ('payload', f'result[0][4:4 + {N}] == self._bts[start_pos:start_pos + {N}]'),
-      ('padcount', f'(result[1] - 4 - {N}) == 0 or result[0][result[1] - 1] == 1'),
+      ('padcount', f'(result[1] - 4 - {N}) == 0 or result[0][result[1] - 1] == result[1] - 4 - {N}'),
+      ('spec', f'result[0] == seg(self._is_eflr, start_pos != 0, start_pos + {N} != self._size, self._lr_type_struct, self._bts[start_pos:start_pos + {N}])'),
     ]),
  'DLISWriter._make_visible_record': dict(
     props=['C01'],
@@ -39,18 +41,25 @@ CONTRACTS = {
     ensures=['len(result) == len(body) + 4', 'result[0] * 256 + result[1] == len(body) + 4', 'result[2] == 255', 'result[3] == 1', 'result[4:] == body'],
  ),
  'LogicalRecordBytes.make_segments': dict(
-    props=['C02', 'C15'],
+    props=['C02', 'C15', 'C01'],
     params={'max_n_bytes': 'int'},
-    requires=['max_n_bytes >= 12', 'max_n_bytes % 2 == 0', 'max_n_bytes <= 16376', 'self._size == 0 or self._size >= 12'],
-    returns='none',
-    raises={'ValueError': 'max_n_bytes < 24'},
+    requires=['max_n_bytes % 2 == 0', 'max_n_bytes <= 16376'],
+    returns='none', yields='tuple[bytes,int]',
+    raises={'ValueError': 'max_n_bytes < 12'},
     ghost={'acc': ('bytes', "b''"), 'k': ('int', '0'), 'done': ('bool', 'False')},
-    yield_requires=[('notdone', 'not done'), ('fits', 'yielded[1] <= max_n_bytes + 4'),
-                    ('pred-bit', '(yielded[0][2] // 64) % 2 == (0 if k == 0 else 1)'), ('eflr-bit', 'yielded[0][2] // 128 == (1 if self._is_eflr else 0)')],
-    on_yield={'acc': 'acc + yielded[0][4:yielded[1] - (yielded[0][2] % 2)]', 'k': 'k + 1', 'done': '(yielded[0][2] // 32) % 2 == 0'},
-    loops=[dict(inv=['start_pos + remaining_size == self._size', '0 <= start_pos', '0 <= remaining_size', 'remaining_size == 0 or remaining_size >= 12',
-             'acc == self._bts[0:start_pos]', '(k == 0) == (start_pos == 0)', 'done == (remaining_size == 0 and k > 0)', 'k >= 0'],
-             variant='remaining_size')],
-    ensures=['acc == self._bts', 'self._size == 0 or done', '(k == 0) == (self._size == 0)'],
+    # the reader's view of a yielded segment: strip the 4-byte header and the flagged pad bytes (count in the last byte)
+    yield_requires=[('notdone', 'not done'), ('fits', 'yielded[1] <= max_n_bytes + 4'), ('len', 'yielded[1] == len(yielded[0])'),
+                    ('even-min16', 'yielded[1] % 2 == 0 and yielded[1] >= 16'),
+                    ('declared-length', 'yielded[0][0] * 256 + yielded[0][1] == yielded[1]'),
+                    ('pred-bit', '(yielded[0][2] // 64) % 2 == (0 if k == 0 else 1)'), ('eflr-bit', 'yielded[0][2] // 128 == (1 if self._is_eflr else 0)'),
+                    ('type-byte', 'yielded[0][3] == self._lr_type_struct[0]'),
+                    ('reserved-bits-clear', '(yielded[0][2] // 2) % 16 == 0'),
+                    ('pad-count-consistent', 'yielded[0][2] % 2 == 0 or 1 <= yielded[0][yielded[1] - 1] <= yielded[1] - 4')],
+    on_yield={'acc': 'acc + yielded[0][4:yielded[1] - (yielded[0][yielded[1] - 1] if yielded[0][2] % 2 == 1 else 0)]', 'k': 'k + 1',
+              'done': '(yielded[0][2] // 32) % 2 == 0'},
+    loops=[dict(inv=['start_pos + remaining_size == self._size', '0 <= start_pos', '0 <= remaining_size',
+                     'acc == self._bts[0:start_pos]', '(k == 0) == (start_pos == 0)', 'done == (remaining_size == 0 and k > 0)', 'k >= 0'],
+                variant='remaining_size')],
+    ensures=[('reassembled', 'acc == self._bts'), ('closed', 'self._size == 0 or done'), ('count', '(k == 0) == (self._size == 0)')],
  ),
 }
